@@ -1,12 +1,15 @@
 """C13 -- whitespace, line endings and comments between tokens do not matter."""
 import json
+import os
 import re
 from common import cz, cn, cbool, copt, clist, cstr, cbytes, run_harness, coq_eval_bad
 
 REQ = ['RasnV.Corr.C13']
+CORPUS = '/repo/rasn-compiler-tests/tests/modules'
 KNOWN_ELLIPSIS = 'C13-ellipsis-comma'
 KNOWN_MULTIWORD = 'C13-multiword-keywords'
 KNOWN_CHOICE_COLON = 'C13-choice-value-colon'
+KNOWN_FIELD_DOT = 'C13-field-name-after-dot'
 
 MODULE = '''Lay-Mod DEFINITIONS AUTOMATIC TAGS ::= BEGIN
 Rec ::= SEQUENCE { a INTEGER (0..5), b BOOLEAN OPTIONAL, c Color DEFAULT red, ..., d OCTET STRING (SIZE (2)) }
@@ -22,21 +25,63 @@ pick-v Pick ::= x:5
 name-v IA5String ::= "ab c"
 END
 '''
-TOKEN_RE = re.compile(r'"(?:[^"]|"")*"|::=|\.\.\.|\.\.|[A-Za-z][A-Za-z0-9-]*|\d+|[{}()\[\],:;|^<>@!]')
+MODULE2 = '''Lay-Two { iso(1) standard(0) 42 } DEFINITIONS EXPLICIT TAGS EXTENSIBILITY IMPLIED ::= BEGIN
+EXPORTS Holder, limit;
+IMPORTS Rec, Color FROM Lay-Mod;
+Holder ::= SEQUENCE { r Rec, c Color DEFAULT green, ..., [[ 2: e INTEGER (0..7), f BOOLEAN OPTIONAL ]], [[ g NULL ]] }
+limit INTEGER ::= 7
+Oct ::= OCTET STRING (SIZE (1..5, ...))
+Str ::= IA5String (SIZE (1..limit) ^ FROM ("a".."f" | "xyz"))
+Open ::= INTEGER (0..<10)
+Par { T, INTEGER:n } ::= SEQUENCE { v T, k INTEGER (0..n) }
+Inst ::= Par { BOOLEAN, 5 }
+arc-v OBJECT IDENTIFIER ::= { iso(1) member-body(2) 840 }
+Sub ::= Holder (WITH COMPONENTS { ..., c (red) })
+Tagged ::= [APPLICATION 3] IMPLICIT Rec
+bits-v BIT STRING ::= '1010'B
+hex-v OCTET STRING ::= '0AF1'H
+list-v SEQUENCE OF INTEGER ::= { 1, 2, 3 }
+Alias ::= Rec
+END
+'''
+TOKEN_RE = re.compile(r'"(?:[^"]|"")*"|\'[0-9A-Fa-f]*\'[BH]|::=|\.\.\.|\.\.|\[\[|\]\]|&?[A-Za-z](?:-?[A-Za-z0-9])*|-?\d+|[{}()\[\],:;|^<>@!&.]')
 MULTIWORD = [('OCTET', 'STRING'), ('BIT', 'STRING'), ('OBJECT', 'IDENTIFIER'), ('AUTOMATIC', 'TAGS'), ('EXTENSIBILITY', 'IMPLIED'),
-             ('EXPLICIT', 'TAGS'), ('IMPLICIT', 'TAGS'), ('COMPONENTS', 'OF'), ('EMBEDDED', 'PDV'), ('WITH', 'COMPONENTS')]
+             ('EXPLICIT', 'TAGS'), ('IMPLICIT', 'TAGS'), ('COMPONENTS', 'OF'), ('EMBEDDED', 'PDV'), ('WITH', 'COMPONENTS'), ('WITH', 'SYNTAX'), ('WITH', 'COMPONENT'), ('CHARACTER', 'STRING'),
+             ('ENCODED', 'BY'), ('CONSTRAINED', 'BY'), ('INSTANCE', 'OF'), ('ALL', 'EXCEPT'), ('WITH', 'SUCCESSORS'), ('WITH', 'DESCENDANTS')]
 SEPARATORS = [' ', '  ', '\t', '\n', '\r\n', ' \n ', '-- c\n', ' -- in line -- ', '/* b */', ' /* a /* n */ c */ ',
               '-- "q" { } END ::= \n', '/* "q" { } END ::= é中 */', '--é--', '\n--\n', '/* 5" wide */', '-- it"s --', "/* '0 */"]
 PUNCT = set('{}()[],:;|^')
 
 
 def tokenize(text):
+    """-> [(token, separator before it)], tail.  Comments already in the text belong to the separators."""
     toks = []
-    pos = 0
-    for m in TOKEN_RE.finditer(text):
-        toks.append((m.group(0), text[pos:m.start()]))   # (token, separator before it)
-        pos = m.end()
-    return toks, text[pos:]
+    pos, sep_start, n = 0, 0, len(text)
+    while pos < n:
+        if text.startswith('--', pos):
+            j = pos + 2
+            while j < n and text[j] not in '\n\r' and not text.startswith('--', j):
+                j += 1
+            pos = j + 2 if text.startswith('--', j) else j
+            continue
+        if text.startswith('/*', pos):
+            depth, j = 1, pos + 2
+            while j < n and depth:
+                if text.startswith('/*', j):
+                    depth, j = depth + 1, j + 2
+                elif text.startswith('*/', j):
+                    depth, j = depth - 1, j + 2
+                else:
+                    j += 1
+            pos = j
+            continue
+        m = TOKEN_RE.match(text, pos)
+        if m:
+            toks.append((m.group(0), text[sep_start:pos]))
+            pos = sep_start = m.end()
+        else:
+            pos += 1
+    return toks, text[sep_start:]
 
 
 def rebuild(toks, tail, changes):
@@ -109,6 +154,8 @@ def classify(toks, i):
         return KNOWN_MULTIWORD
     if cur == ':' or prev == ':':
         return KNOWN_CHOICE_COLON
+    if prev == '.' and cur.startswith('&'):
+        return KNOWN_FIELD_DOT
     return None
 
 
@@ -123,35 +170,65 @@ def run(ck):
     ck.prove('Props/C13.v', ['RasnV.Props.C13'], extra=['Corr/C13.vo'])
     tc = trivia_cases(ck, 600 if ck.tier == 'quick' else 20000)
     judge_trivia(ck, tc, run_harness(tc))
-    toks, tail = tokenize(MODULE)
-    assert rebuild(toks, tail, {}) == MODULE
-    cases = [{'op': 'compile', 'sources': [MODULE], '_changes': {}}]
+    layouts = [('module-1', MODULE, []), ('module-2', MODULE2, [MODULE])]
+    # generator outputs: module sets of the common generator (one module varied, the others kept)
+    from props import modgen as MG
+    for k in range(3 if ck.tier == 'quick' else 40):
+        ms = MG.gen_module_set(ck.rng, 300 + k, max_defs=5)
+        srcs = MG.render(ms, split_sources=True)
+        layouts.append(('generated-%d' % k, srcs[0], srcs[1:]))
+    # real-world modules (thorough): sampled boundaries
+    if ck.tier != 'quick' and os.path.isdir(CORPUS):
+        files = sorted(os.listdir(CORPUS))
+        ck.rng.shuffle(files)
+        for f in files[:25]:
+            text = open(os.path.join(CORPUS, f), encoding='utf-8', errors='replace').read()
+            if len(text) < 6000 and 'IMPORTS' not in text.split('BEGIN', 1)[-1][:400].replace('IMPORTS ;', ''):
+                layouts.append(('corpus:' + f, text, []))
+    ck.sample({'asn1': MODULE})
+    for li, (label, text, others) in enumerate(layouts):
+        sweep(ck, label, text, others, exhaustive=(li < 2))
+
+
+def sweep(ck, label, text, others, exhaustive):
+    toks, tail = tokenize(text)
+    if rebuild(toks, tail, {}) != text:
+        ck.broken.append({'kind': 'generator', 'item': 'C13 tokenizer', 'detail': 'round trip failed on ' + label})
+        return
+    cases = [{'op': 'compile', 'sources': [text] + others, '_changes': {}}]
     per = 4 if ck.tier == 'quick' else len(SEPARATORS) + 1
-    for i in range(1, len(toks)):
+    if not exhaustive:
+        per = 1 if ck.tier == 'quick' else 3
+    bounds = list(range(1, len(toks)))
+    if not exhaustive and len(bounds) > 150:
+        bounds = sorted(ck.rng.sample(bounds, 150))
+    for i in bounds:
         seps = list(SEPARATORS)
         ck.rng.shuffle(seps)
         chosen = seps[:per]
         if can_be_empty(toks[i - 1][0], toks[i][0]) and (ck.tier != 'quick' or ck.rng.random() < 0.5):
             chosen.append('')
         for sp in chosen:
-            cases.append({'op': 'compile', 'sources': [rebuild(toks, tail, {i: sp})], '_changes': {i: sp}})
+            cases.append({'op': 'compile', 'sources': [rebuild(toks, tail, {i: sp})] + others, '_changes': {i: sp}})
     # random subsets of boundaries that are not in a known class
-    free = [i for i in range(1, len(toks)) if classify(toks, i) is None]
-    for _ in range(150 if ck.tier == 'quick' else 5000):
-        k = ck.rng.randint(2, 25)
+    free = [i for i in range(1, len(toks)) if classify(toks, i) is None or not ck.is_known(classify(toks, i))]
+    for _ in range((150 if ck.tier == 'quick' else 5000) if exhaustive else (10 if ck.tier == 'quick' else 60)):
+        k = ck.rng.randint(2, min(25, len(free)))
         ch = {i: ck.rng.choice(SEPARATORS) for i in ck.rng.sample(free, k)}
-        cases.append({'op': 'compile', 'sources': [rebuild(toks, tail, ch)], '_changes': ch})
+        cases.append({'op': 'compile', 'sources': [rebuild(toks, tail, ch)] + others, '_changes': ch})
     res = run_harness(cases)
     base = res[0]
     if not base.get('ok'):
-        ck.broken.append({'kind': 'generator', 'item': 'C13 canonical module', 'detail': json.dumps(base)[:600]})
+        if exhaustive:
+            ck.broken.append({'kind': 'generator', 'item': 'C13 canonical module', 'detail': label + ': ' + json.dumps(base)[:600]})
+        else:
+            ck.count('layout-base-rejected')
         return
     want = canon_items(base)
-    ck.sample({'asn1': MODULE})
     ck.sample({'relayout': cases[len(cases) // 2]['sources'][0][:400]})
     for c, r in zip(cases[1:], res[1:]):
         ck.note_case(c['sources'][0])
-        ck.count('boundary' if len(c['_changes']) == 1 else 'multi')
+        ck.count(('boundary' if len(c['_changes']) == 1 else 'multi') + ':' + label.split('-')[0].split(':')[0])
         bad = None
         if 'panic' in r or 'crash' in r:
             bad = 'compiler crashed'
@@ -167,7 +244,7 @@ def run(ck):
                                     'separator': list(c['_changes'].values())})
             else:
                 ck.violation('impl-violation', c['sources'][0], changes={str(k): v for k, v in c['_changes'].items()},
-                             boundaries=[toks[i - 1][0] + ' | ' + toks[i][0] for i in c['_changes']],
+                             boundaries=[toks[i - 1][0] + ' | ' + toks[i][0] for i in c['_changes']], layout=label,
                              impl={k: v for k, v in r.items() if k not in ('items', 'generated')}, why=bad)
 
 
